@@ -23,9 +23,9 @@ from .common import sample
 
 TIMEOUT_MS = {"quick": 60000, "thorough": 300000}
 
-CONTRACTS = ["string_cell_roundtrip", "int_cell_roundtrip", "bool_cell_roundtrip", "float_cell_roundtrip",
+CONTRACTS = ["string_cell_roundtrip", "int_cell_roundtrip", "bool_cell_roundtrip", "float_cell_roundtrip", "complex_cell_roundtrip", "terse_schema_is_valid",
              "schema_validation", "invalid_schema_refused", "unequal_columns_refused", "unparsable_cell_refused"]
-HEAVY = {"schema_validation", "invalid_schema_refused", "unparsable_cell_refused"}
+HEAVY = {"schema_validation", "invalid_schema_refused", "unparsable_cell_refused", "terse_schema_is_valid"}
 
 
 def tasks(tier):
@@ -48,7 +48,8 @@ def t_contract(sess, fn, per_condition_s):
     here = os.path.dirname(os.path.dirname(os.path.dirname(os.path.abspath(__file__))))
     mpl = os.path.join(here, ".cache", "mpl")
     os.makedirs(mpl, exist_ok=True)  # matplotlib (imported by pydrex) must not create directories under CrossHair's audit wall
-    env = dict(os.environ, PYTHONPATH=here, NUMBA_DISABLE_JIT="1", MPLCONFIGDIR=mpl)
+    pp = os.pathsep.join([x for x in (os.environ.get("VERIF_PYDREX_SRC"), here) if x])
+    env = dict(os.environ, PYTHONPATH=pp, NUMBA_DISABLE_JIT="1", MPLCONFIGDIR=mpl)
     # warm-up outside CrossHair's audit wall: matplotlib (imported by pydrex) builds its config dir / font cache once
     subprocess.run([sys.executable, "-c", "import pydrex.io"], env=env, cwd=here, capture_output=True, timeout=600)
     import inspect
